@@ -137,7 +137,7 @@ fn c37_offset_vector_and_forward_exp() {
 #[kani::proof]
 #[kani::unwind(8)]
 #[kani::stub(mmtk::util::metadata::side_metadata::SideMetadataSpec::get_starting_address, stub_starting_address)]
-fn c37_two_objects_forward_second() {
+fn c37_two_objects_forward_second_exp() {
     let r: usize = kani::any();
     kani::assume(r % (1 << 20) == 0 && r >= (1 << 20) && r <= (1usize << 46));
     let mut marks = Marks([0; BLOCKS * 8 + 8]);
@@ -176,6 +176,101 @@ fn c37_two_objects_forward_second() {
     }
     kani::cover!(z0 > 70 && s0 > 3 && (s0 + z0) / 64 == s1 / 64, "C37.cover.object_covers_a_whole_block_and_another_follows_in_its_last_block");
     kani::cover!(s1 / 64 != (s1 + z1 - 1) / 64 && z0 < 10, "C37.cover.second_object_spans_a_block_boundary");
+    std::mem::forget(marks);
+    std::mem::forget(offs);
+}
+
+/// Contract of `SideMetadataSpec::scan_non_zero_values` for the 1-bit-per-word mark table (C22 discharges it on
+/// bounded windows): the visitor is called with the address of every word of [start, end) whose mark bit is set, in
+/// ascending order, each once. Implemented as a plain word-by-word walk over the harness' mark buffer.
+fn contract_scan<T: mmtk::util::metadata::MetadataValue, F: FnMut(Address)>(_spec: &SideMetadataSpec, start: Address, end: Address, visit: &mut F) {
+    unsafe {
+        let (s, e) = (start.as_usize(), end.as_usize());
+        assert!(s % 8 == 0 && s <= e && s >= REGION && e <= REGION + BLOCKS * 512, "C37.modular.scan_called_inside_the_region_prefix");
+        let mut w = (s - REGION) / 8;
+        let we = (e - REGION + 7) / 8;
+        while w < we {
+            let byte = *((MARK_BUF + w / 8) as *const u8);
+            if (byte >> (w % 8)) & 1 == 1 {
+                visit(Address::from_usize(REGION + 8 * w));
+            }
+            w += 1;
+        }
+    }
+}
+static mut REGION: usize = 0;
+static mut MARK_BUF: usize = 0;
+
+/// calculate_offset_vector / forward against the contract of scan_non_zero_values (modular): up to three live objects
+/// in a three-block region prefix, including objects spanning block boundaries and covering whole blocks.
+#[kani::proof]
+#[kani::unwind(66)]
+#[kani::stub(mmtk::util::metadata::side_metadata::SideMetadataSpec::get_starting_address, stub_starting_address)]
+#[kani::stub(mmtk::util::metadata::side_metadata::SideMetadataSpec::scan_non_zero_values, contract_scan)]
+fn c37_offset_vector_and_forward_modular() {
+    let r: usize = kani::any();
+    kani::assume(r % (1 << 20) == 0 && r >= (1 << 20) && r <= (1usize << 46));
+    let mut marks = Marks([0; BLOCKS * 8 + 8]);
+    let mut offs = Offsets(kani::any());
+    let mark_addr = Address::from_mut_ptr(marks.0.as_mut_ptr()).as_usize();
+    let ov_addr = Address::from_mut_ptr(offs.0.as_mut_ptr()).as_usize();
+    kani::assume(r / 64 <= mark_addr && r / 64 <= ov_addr);
+    unsafe {
+        MARK_START = mark_addr - r / 64;
+        OV_START = ov_addr - r / 64;
+        REGION = r;
+        MARK_BUF = mark_addr;
+    }
+    let n: usize = kani::any();
+    kani::assume(n >= 1 && n <= 3);
+    let (s0, z0, s1, z1, s2, z2): (usize, usize, usize, usize, usize, usize) = (kani::any(), kani::any(), kani::any(), kani::any(), kani::any(), kani::any());
+    kani::assume(z0 >= 2 && z1 >= 2 && z2 >= 2);
+    kani::assume(s0 < WORDS && s0 + z0 <= WORDS);
+    kani::assume(n < 2 || (s1 >= s0 + z0 && s1 < WORDS && s1 + z1 <= WORDS));
+    kani::assume(n < 3 || (s2 >= s1 + z1 && s2 < WORDS && s2 + z2 <= WORDS));
+    let set = |m: &mut Marks, w: usize| m.0[w / 8] |= 1 << (w % 8);
+    set(&mut marks, s0);
+    set(&mut marks, s0 + z0 - 1);
+    if n >= 2 {
+        set(&mut marks, s1);
+        set(&mut marks, s1 + z1 - 1);
+    }
+    if n >= 3 {
+        set(&mut marks, s2);
+        set(&mut marks, s2 + z2 - 1);
+    }
+    let fm = cf::ForwardingMetadata::<KVM0>::new();
+    cf::calculate_offset_vector(&fm, addr(r), addr(r + BLOCKS * 512));
+    // the forwarding address of the LAST object is region start + total size of the live objects before it
+    let (sl, before) = if n == 1 { (s0, 0) } else if n == 2 { (s1, z0) } else { (s2, z0 + z1) };
+    assert!(fm.forward(addr(r + 8 * sl)).as_usize() == r + 8 * before, "C37.forward.address_is_region_start_plus_live_bytes_before");
+    // every offset-vector entry encodes the live bytes before its block (flagged when the block starts inside an object)
+    let b: usize = kani::any();
+    kani::assume(b < BLOCKS);
+    let bw = b * 64;
+    let entry = offs.0[b] as usize;
+    let objs = [(s0, z0, true), (s1, z1, n >= 2), (s2, z2, n >= 3)];
+    let (mut total, mut inside, mut from) = (0usize, false, 0usize);
+    let mut i = 0;
+    while i < 3 {
+        let (s, z, live) = objs[i];
+        if live && bw > s {
+            if bw >= s + z {
+                total += 8 * z;
+            } else {
+                inside = true;
+                from = s;
+            }
+        }
+        i += 1;
+    }
+    if inside {
+        assert!(entry & 1 == 1 && (entry & !1) == r + total + 8 * (bw - from), "C37.offset_vector.entry_inside_object");
+    } else {
+        assert!(entry == r + total, "C37.offset_vector.entry_is_live_bytes_before_block");
+    }
+    kani::cover!(n == 2 && z0 > 70 && s0 > 3 && (s0 + z0) / 64 == s1 / 64, "C37.cover.object_covers_a_whole_block_and_another_follows_in_its_last_block");
+    kani::cover!(n == 3 && s1 / 64 != (s1 + z1 - 1) / 64, "C37.cover.object_spans_one_block_boundary");
     std::mem::forget(marks);
     std::mem::forget(offs);
 }
